@@ -27,6 +27,7 @@ from dataclasses import dataclass, field
 HAZARDS = {
     # dt
     'dt_whole_and_member': 'nested member used as a whole (assignment to a local) and by component in one kernel',
+    'dt_whole_passed_on': 'derived-type dummy used by component and passed on whole to a callee that never touches its components',
     'dt_alloc_lbound': 'allocatable member allocated with lower bound 0 and indexed from 0 in the kernel',
     'dt_allocated_inq': 'kernel asks ALLOCATED(member)',
     'dt_kw_call': 'derived-type actual passed by keyword',
@@ -46,6 +47,7 @@ HAZARDS = {
     'shape_member_dim': 'caller array dimensioned by a derived-type member',
     # dup
     'dup_spec_use': 'removed duplicate dummy is used in the callee specification part (array extent)',
+    'dup_kw': 'duplicated actuals passed by keyword (not adjacent in the keyword list)',
     'dup_diff_bounds': 'the two dummies that receive the same actual are declared with different lower bounds',
 }
 
@@ -647,6 +649,8 @@ class SigGen:
                 if pos >= kwstart:
                     argtxt.append(f'{a.name}={txt}')
                     self.features.add('keyword_actuals')
+                    if self.hz == 'dup_kw' and (a.dupof or any(b.dupof == a.name for b in child.args)):
+                        self.hz_done = True
                 else:
                     argtxt.append(txt)
                 pos += 1
@@ -779,7 +783,12 @@ class SigGen:
             if not L:
                 L = self.gen_stmt(r, objs, 0)
             body += L
-        # make sure every child is called at least once from somewhere: handled by caller
+        # every (expandable) derived-type dummy is referenced by component at least once: a dummy that is only passed
+        # on as a whole next to callers that use its components is the hazard dt_whole_passed_on
+        for a in r.args:
+            if a.cat == 'dt' and a.ty.name != 'plain_t' and not any(f'{a.name}%' in ln for ln in body):
+                mem = {'leaf_t': 'c', 'mid_t': 'g', 'top_t': 'a(1)'}[a.ty.name]
+                body.append(f'ls1 = ls1 + 0.125_rk*{a.name}%{mem}')
         r.lines = body
         return objs
 
@@ -943,7 +952,7 @@ class SigGen:
         the construct is isolated from the random part of the program.  Sets self.hz_done.
         """
         hz = self.hz
-        if not hz or self.hz_done or hz.startswith('tb_') or hz == 'dt_kw_call':
+        if not hz or self.hz_done or hz.startswith('tb_') or hz in ('dt_kw_call', 'dup_kw'):
             return
         inner = 'md' if 'mid' in self.types else 'lf'
         innerty = 'mid_t' if 'mid' in self.types else 'leaf_t'
@@ -951,6 +960,8 @@ class SigGen:
         head = {  # hazard: (dummy list, declarations, body)
             'dt_whole_and_member': ('d, s', ['type(top_t), intent(in) :: d', f'type({innerty}) :: cp'],
                                     [f'cp = d%{inner}', f's = 0.5_rk*s + 0.25_rk*cp%{innersc} + 0.125_rk*d%{inner}%{innersc}']),
+            'dt_whole_passed_on': ('d, s', ['type(top_t), intent(in) :: d'],
+                                   ['s = 0.5_rk*s + 0.25_rk*d%a(1)', 'call hzk2(d, s)']),
             'dt_alloc_lbound': ('nn, d, s', ['integer, intent(in) :: nn', 'type(leaf_t), intent(in) :: d'],
                                 ['do i = 0, nn - 1', '  s = 0.5_rk*s + 0.25_rk*d%z(i)*real(i + 1, kind=rk)', 'end do']),
             'dt_allocated_inq': ('d, s', ['type(top_t), intent(in) :: d'],
@@ -982,6 +993,7 @@ class SigGen:
         leafobj = 't%arr(1)' if self.f['arr_of_comp'] else ('t%md%lf' if 'mid' in self.types else 't%lf')
         use = {  # hazard: (driver declarations, driver lines)
             'dt_whole_and_member': ([], ['call hzk(t3, ls2)']),
+            'dt_whole_passed_on': ([], ['call hzk(t3, ls2)']),
             'dt_alloc_lbound': ([], [f'call hzk(n, {leafobj}, ls2)']),
             'dt_allocated_inq': ([], ['call hzk(t3, ls2)']),
             'seq_span': ([], ['call hzk(2*n, y(1, 1), ls2)']),
@@ -1025,6 +1037,9 @@ class SigGen:
         K = [f'  subroutine hzk({args})'] + ['    ' + d for d in decls] + \
             ['    real(kind=rk), intent(inout) :: s', '    integer :: i, j'] + ['    ' + b for b in body] + \
             ['  end subroutine hzk', '']
+        if hz == 'dt_whole_passed_on':
+            K += ['  subroutine hzk2(d, s)', '    type(top_t), intent(in) :: d', '    real(kind=rk), intent(inout) :: s',
+                  '    s = s + 0.125_rk', '  end subroutine hzk2', '']
         self.raw_kernels.append('\n'.join(K))
         ddecl, dlines = use[hz]
         driver.extra_decl += ddecl
